@@ -88,7 +88,277 @@ def wf_core(q, weak=1):
 
 def plan_C01(q, seed):
     return {
-        "jobs": wf_core(q),
+        "jobs": wf_core(q) + [fam_job("WF", 40000 if q else 1000000, time_limit=15 if q else 300)] + san_samples(q),
+        "assumptions": E1_ASSUME + SAN_ASSUME,
         "rule": "well-formed histories (recorded <= stored): every 2-object shape x drop order x Weak placement, sampled 3-object shapes, seeded random dynamic histories; after every operation every object the ledger says is reachable is dereferenced through every handle (canary, id) and every destructor start is checked against reachability. Non-trivial = at least one object was destroyed and a still-reachable object was dereferenced afterwards; distinct = distinct operation sequences",
         "require": {"stats.deref_after_destroy_obs": 1000, "paths.group": 100},
+    }
+
+
+# ---------------------------------------------------------------------------------------------
+# engine-specific helpers
+
+E3_LIGHT = ["--light", "--sweep-every", "4", "--no-links", "--no-mem"]
+
+
+def e2(job):
+    job = dict(job)
+    job["engine"] = "e2"
+    job["label"] = job["label"].replace("-e1", "-e2")
+    return job
+
+
+def e3(job, time_limit):
+    job = dict(job)
+    job["engine"] = "e3"
+    job["label"] = job["label"].replace("-e1", "-e3")
+    job["args"] = list(job["args"]) + E3_LIGHT
+    job["time_limit"] = time_limit
+    job["watchdog"] = time_limit * 3 + 240
+    return job
+
+
+def san_samples(q, cls="WF", weak=1, gen="rand", extra=None, e3_time=None):
+    """AddressSanitizer and Miri runs of a smaller version of the same workload."""
+    e3t = e3_time or (40 if q else 600)
+    if gen == "rand":
+        a = rand_job(cls, 30000 if q else 600000, weak=weak, time_limit=25 if q else 300, extra=extra)
+        b = rand_job(cls, 100000, weak=weak, objs=4, length=30, extra=extra, lo=1 << 20)
+    elif gen == "family":
+        a = fam_job(cls, 20000 if q else 400000, time_limit=25 if q else 300, extra=extra)
+        b = fam_job(cls, 100000, extra=(extra or []) + ["--max-n", "5"], lo=1 << 20)
+    else:
+        a = gen_job(gen, cls, 20000 if q else 400000, time_limit=25 if q else 300, extra=extra)
+        b = gen_job(gen, cls, 100000, extra=extra, lo=1 << 20)
+    return [e2(a), e3(b, e3t)]
+
+
+def gen_job(gen, cls, count, engine="e1", time_limit=60, extra=None, shards=None, label=None, lo=0):
+    args = ["run", "--gen", gen, "--class", cls] + list(extra or [])
+    j = {"engine": engine, "args": args, "lo": lo, "hi": lo + count, "class": cls, "time_limit": time_limit,
+         "label": label or "%s-%s-%s" % (gen, cls, engine)}
+    if shards:
+        j["shards"] = shards
+    return j
+
+
+SAN_ASSUME = [
+    "AddressSanitizer and Miri observe only the executions produced; a clean run is not a proof of memory safety (intra-object and never-executed-path errors are invisible)",
+    "Miri runs use Stacked Borrows with -Zmiri-permissive-provenance; the monitor runs in light mode there (sweep every 4 operations)",
+]
+
+
+def plan_C02(q, seed):
+    jobs = wf_core(q, weak=2) + [fam_job("WF", 60000 if q else 1500000, time_limit=20 if q else 300)]
+    jobs += [e2(enum_job(2, 2)), e2(enum_job(3, 1, sample=64 if q else 2, time_limit=25 if q else 400))]
+    jobs += san_samples(q, weak=2)
+    jobs += [e2(fam_job("WF", 15000 if q else 300000, time_limit=20 if q else 300))]
+    jobs += [e3(enum_job(2, 2, sample=1 if not q else 40, lo=0), 40 if q else 900)]
+    return {
+        "jobs": jobs,
+        "rule": "well-formed histories with Weak handles outside and inside values; exactly-once oracle on destructor starts (canary), allocator oracle (double/invalid free, write-after-free in quarantine mode), moved-out-field poison (H2) turning stale table reads into deterministic panics, AddressSanitizer reports and Miri UB errors as process deaths. Non-trivial = an object was destroyed while handles to it or a group teardown or a zero-count-with-adoptions teardown were involved; distinct = distinct operation sequences",
+        "assumptions": E1_ASSUME + SAN_ASSUME,
+        "require": {"paths.group": 100, "paths.with_adoptions": 100, "paths.dead_handle": 100},
+    }
+
+
+def plan_C03(q, seed):
+    jobs = [
+        enum_job(2, 2, cls="FULL", full=True),
+        enum_job(3, 1, cls="FULL", full=True),
+        enum_job(3, 2, cls="FULL", full=True, sample=4 if q else 1, time_limit=25 if q else 200),
+        enum_job(4, 1, cls="FULL", full=True, sample=256 if q else 8, time_limit=25 if q else 400),
+        fam_job("FULL", 150000 if q else 3000000, time_limit=25 if q else 400),
+        fam_job("WF", 60000 if q else 1000000, time_limit=20 if q else 200),
+        rand_job("FULL", 60000 if q else 1500000, time_limit=20 if q else 200),
+        rand_job("WF", 60000 if q else 1500000, time_limit=20 if q else 200),
+        enum_job(3, 1, sample=32 if q else 1, time_limit=20 if q else 400),
+    ]
+    jobs += [e3(fam_job("FULL", 100000, extra=["--max-n", "5"], lo=1 << 20), 30 if q else 600)]
+    return {
+        "jobs": jobs,
+        "rule": "fully recorded shapes (every 2- and 3-object shape, sampled 4-object shapes), rings/cliques/chords/lists/tails/shared cycles/parallel edges with every choice of last outside handle, random histories; at every handle drop (top-level and nested inside destructors) the ledger computes the set the property requires (forward closure over recorded adoptions, all handles explained) and demands End events for all of it before that drop returns. Non-trivial = the rule required a collection that involved a group or a zero-count object with adoptions; distinct = distinct operation sequences",
+        "assumptions": E1_ASSUME + SAN_ASSUME,
+        "require": {"stats.required_groups": 1000, "paths.group": 500},
+    }
+
+
+def plan_C04(q, seed):
+    jobs = [
+        rand_job("WF", 150000 if q else 3000000, weak=3, time_limit=25 if q else 300),
+        fam_job("WF", 60000 if q else 1500000, time_limit=20 if q else 300),
+        fam_job("FULL", 40000 if q else 800000, time_limit=15 if q else 200),
+        enum_job(2, 2),
+        enum_job(3, 1, sample=32 if q else 1, time_limit=20 if q else 400),
+    ]
+    # independent second opinions on leak-free-predicted batches: LeakSanitizer at exit, Miri's leak checker
+    lj = rand_job("WF", 16000 if q else 400000, weak=3, time_limit=25 if q else 300, lo=1 << 21, label="rand-WF-leakcheck-e2l")
+    lj["engine"] = "e2l"
+    jobs.append(lj)
+    mj = e3(rand_job("WF", 100000, weak=3, objs=4, length=30, lo=1 << 22, label="rand-WF-leakcheck-e3l"), 35 if q else 600)
+    mj["engine"] = "e3l"
+    jobs.append(mj)
+    return {
+        "jobs": jobs,
+        "rule": "histories that end with a teardown phase in which every object dies (by all three teardown paths) and every Weak is dropped; MonAlloc attributes every block to library or harness: per object, the allocation must be live exactly while the object is alive or Weak handles remain, library-origin blocks beyond object allocations and one table per live adopted object are a leak, and at the end library-origin live blocks and bytes must be zero. LeakSanitizer (exit code) and Miri's leak checker judge separate batches. Non-trivial = history ended with everything destroyed and allocation states were compared; distinct = distinct operation sequences",
+        "assumptions": E1_ASSUME + SAN_ASSUME + ["leak checks by LSan/Miri are per process (batch of histories all predicted leak-free)"],
+        "require": {"paths.group": 100, "paths.with_adoptions": 100, "paths.plain": 100, "stats.mem_obs": 1000},
+    }
+
+
+def plan_C05(q, seed):
+    jobs = wf_core(q, weak=4) + [fam_job("WF", 60000 if q else 1500000, time_limit=20 if q else 300)]
+    jobs += san_samples(q, weak=4)
+    return {
+        "jobs": jobs,
+        "rule": "well-formed histories dense in downgrade/upgrade/clone/drop of Weak handles held by the program and stored in values (to self, peers, outsiders); after every operation every Weak reports strong_count/weak_count equal to the ledger (0/0 once the target is destroyed), every upgrade result is compared with the ledger and the returned handle must be the original allocation; every dying value probes all Weak handles it owns from inside its destructor. Non-trivial = Weak observations were made in a history where objects were destroyed; distinct = distinct operation sequences",
+        "assumptions": E1_ASSUME + SAN_ASSUME,
+        "require": {"stats.wprobes_dead": 1000, "stats.upgrades_none": 1000, "stats.upgrades_some": 1000, "paths.group": 100},
+    }
+
+
+def plan_C06(q, seed):
+    jobs = wf_core(q) + [
+        rand_job("FULL", 60000 if q else 1500000, time_limit=20 if q else 300),
+        fam_job("WF", 60000 if q else 1500000, time_limit=20 if q else 300),
+    ]
+    return {
+        "jobs": jobs,
+        "rule": "after every operation, for every live object (also unreachable garbage, read through stored handles by reference): Rc::strong_count, Rc::weak_count, Weak::strong_count, Weak::weak_count, as_ptr (must equal the address at creation) and pairwise ptr_eq of all handles are compared with the ledger. Non-trivial = counts were compared in a history where objects were destroyed (partial collections next to survivors); distinct = distinct operation sequences",
+        "require": {"stats.count_obs": 100000, "paths.group": 100},
+    }
+
+
+def plan_C07(q, seed):
+    jobs = [gen_job("diff", "NOADOPT", 300000 if q else 8000000, time_limit=30 if q else 500)]
+    jobs += [e2(gen_job("diff", "NOADOPT", 30000 if q else 600000, time_limit=20 if q else 300))]
+    jobs += [e3(gen_job("diff", "NOADOPT", 100000, extra=["--len", "40"], lo=1 << 20), 40 if q else 600)]
+    return {
+        "level": "translation_validation",
+        "jobs": jobs,
+        "rule": "seeded straight-line programs over the API shared with std::rc (construction incl. pin/From<T>/From<Box<T>>/Default/new_uninit, clone, drop, downgrade/upgrade, Weak::new/default/clone/drop, all counts, try_unwrap, get_mut, make_mut (3 branches), raw round trips for Rc and Weak, increment/decrement_strong_count, ptr_eq, comparison/hash/fmt, Borrow/AsRef/Deref), values owning strong and Weak handles (acyclic and leaking cycles); the same interpreter source is instantiated on cactusref and on std::rc and the transcripts (call results + interleaved destructor log with in-destructor Weak probes) must be identical. Non-trivial = at least one value was destroyed in the program; distinct = distinct programs",
+        "assumptions": ["std::rc of the installed nightly toolchain is the reference", "pointer values are compared only through the equality relations they induce", "destructor side of the comparison is the order and count of destructor runs plus in-destructor probes of own Weak handles"] + SAN_ASSUME,
+        "translation": True,
+    }
+
+
+def plan_C08(q, seed):
+    jobs = wf_core(q) + [
+        rand_job("WF", 60000 if q else 1500000, objs=3, length=90, time_limit=20 if q else 300, label="rand-WF-dense-e1"),
+        rand_job("ELIDE", 40000 if q else 800000, time_limit=25 if q else 300),
+        fam_job("WF", 40000 if q else 1000000, time_limit=15 if q else 200),
+    ]
+    return {
+        "jobs": jobs,
+        "rule": "after every operation and at every destructor start, the link table of every live object (hook H1) is compared with the adoption ledger: forward/backward multiplicities per peer, self records, no zero-count entries, no entry naming an allocation that is not a live object; histories include redundant/unmatched unadopts, parallel adoptions, elided unadopts and interleaved collections, with address reuse (plain allocator mode) so that a stale entry would alias a new object. Non-trivial = tables with entries were inspected; distinct = distinct operation sequences",
+        "require": {"stats.links_entries": 100000, "paths.group": 100, "paths.with_adoptions": 100},
+    }
+
+
+def plan_C09(q, seed):
+    k = 8 if q else 32
+    jobs = [gen_job("layout", "FULL", 40000 if q else 600000, time_limit=35 if q else 600, extra=["--layouts", str(k)])]
+    jobs += [e2(gen_job("layout", "FULL", 4000 if q else 80000, time_limit=20 if q else 300, extra=["--layouts", "4"]))]
+    jobs += [e3(gen_job("layout", "FULL", 100000, extra=["--layouts", "3"], lo=1 << 20), 40 if q else 600)]
+    return {
+        "jobs": jobs,
+        "rule": "fully recorded histories (structured families, random, enumerated) executed once, then the recorded call sequence is replayed under K heap layouts (MonAlloc scatter with K seeds, plus plain and quarantine modes; real ASLR + ASan allocator; Miri address assignment) and the per-operation digest of destroyed sets (sorted: order inside a group is not compared), return values and all observable counts must be equal. Non-trivial = the history has tables with >= 2 entries, objects were destroyed, and the layouts produced >= 2 distinct table iteration orders (observed through hook H1); distinct = distinct call sequences",
+        "assumptions": E1_ASSUME + SAN_ASSUME + ["'every layout' is restated as K layouts per history"],
+        "require": {"extra.histories_where_layouts_produced_distinct_table_orders": 100},
+    }
+
+
+def plan_C10(q, seed):
+    jobs = [gen_job("script", "SCRIPT", 150000 if q else 3000000, time_limit=30 if q else 500)]
+    jobs += [e2(gen_job("script", "SCRIPT", 20000 if q else 400000, time_limit=20 if q else 300))]
+    jobs += [e3(gen_job("script", "SCRIPT", 100000, lo=1 << 20), 40 if q else 600)]
+    return {
+        "jobs": jobs,
+        "rule": "small shapes (enumerated 2-3 objects, structured families up to 6) whose destructors carry action scripts (create+store, clone, drop incl. the last outside handle of another group => nested collection, adopt, unadopt, downgrade, upgrade of live objects and of dying peers, take+drop) executed before or after the value releases its own handles, at every member position of every teardown path; actions on objects that are themselves being destroyed are skipped at run time (C16 territory); all rules of C01-C06 stay armed during nested calls and any panic is a violation. Non-trivial = at least one scripted action executed inside a destructor; distinct = distinct operation sequences",
+        "assumptions": E1_ASSUME + SAN_ASSUME,
+        "require": {"stats.script_actions": 1000, "paths.group": 100},
+    }
+
+
+def plan_C11(q, seed):
+    jobs = [gen_job("panic", "PANIC", 150000 if q else 3000000, time_limit=30 if q else 500)]
+    jobs += [e2(gen_job("panic", "PANIC", 20000 if q else 400000, time_limit=20 if q else 300))]
+    jobs += [e3(gen_job("panic", "PANIC", 100000, lo=1 << 20), 40 if q else 600)]
+    return {
+        "level": "fault_enumeration",
+        "jobs": jobs,
+        "rule": "fault injection: one scripted panic in the destructor of a chosen object (every member index of enumerated 2-3 object shapes and structured families, before or after the value released its own handles), on every teardown path; the panic must reach the caller of drop, no destructor may start twice, nothing reachable may be destroyed, Weak handles to group members must report dead, the allocator must see no double free; 10-20 random operations on the survivors follow. Non-trivial = the scripted panic fired; distinct = distinct operation sequences",
+        "assumptions": E1_ASSUME + SAN_ASSUME + ["exactly one panic per history; a second panic while unwinding aborts by language rule and is out of scope", "memory conservation is not asserted after a panic (the property permits leaks)"],
+        "require": {"stats.panics_scripted": 1000, "paths.group": 100},
+    }
+
+
+def plan_C12(q, seed):
+    jobs = [rand_job("CONSUME", 150000 if q else 3000000, time_limit=30 if q else 500, extra=["--consume-bias", "3"])]
+    jobs += [rand_job("CONSUME", 40000 if q else 800000, objs=3, length=40, time_limit=15 if q else 200, extra=["--consume-bias", "5"], label="rand-CONSUME-dense-e1")]
+    jobs += san_samples(q, cls="CONSUME", extra=["--consume-bias", "3"])
+    return {
+        "jobs": jobs,
+        "rule": "well-formed random histories that call try_unwrap, make_mut (clone / move / unique branches), get_mut, into_raw+from_raw, increment/decrement_strong_count on objects that have adopted or been adopted, with and without outstanding Weak handles, followed by further drops of the former peers; link-table snapshots (H1) must not name a given-up allocation, values must be moved out or cloned exactly once (canary + destructor log), and all later operations must satisfy the rules of C01/C02/C05/C06. Non-trivial = a consuming call succeeded in a history whose tables had entries; distinct = distinct operation sequences",
+        "assumptions": E1_ASSUME + SAN_ASSUME,
+        "require": {"stats.consume_ok": 1000, "paths.group": 50},
+    }
+
+
+def plan_C13(q, seed):
+    jobs = [rand_job("ELIDE", 100000 if q else 2000000, time_limit=35 if q else 500)]
+    jobs += [rand_job("ELIDE", 30000 if q else 600000, objs=3, length=40, time_limit=15 if q else 200, label="rand-ELIDE-dense-e1")]
+    jobs += [e2(rand_job("ELIDE", 10000 if q else 200000, time_limit=20 if q else 300))]
+    return {
+        "jobs": jobs,
+        "rule": "random histories that are well-formed except that recorded handles are taken out of their owner without unadopt (then kept, dropped or re-stored), followed by further operations; premature-destruction and exactly-once/allocator rules armed, synchronous-collection rule disarmed for groups touched by a stale record (leaks are the permitted consequence). Non-trivial = at least one take left a stale record; distinct = distinct operation sequences",
+        "assumptions": E1_ASSUME + ["a premature destruction that the documented algorithm itself predicts from a stale record is matched against known_findings.json by its cause signature; anything else is a violation"],
+        "require": {"stats.elide_takes": 1000},
+    }
+
+
+def plan_C14(q, seed):
+    jobs = [
+        rand_job("NOADOPT", 100000 if q else 2000000, time_limit=20 if q else 300),
+        rand_job("WF", 120000 if q else 2500000, time_limit=25 if q else 300),
+        rand_job("FULL", 40000 if q else 800000, time_limit=15 if q else 200),
+        fam_job("WF", 30000 if q else 600000, time_limit=15 if q else 200),
+    ]
+    return {
+        "jobs": jobs,
+        "rule": "around every clone and drop of a handle to an object whose ledger row and column are empty (never adopted, fully unadopted again, or merely stored inside adopted objects) the trace-invocation counter (hook H3) and MonAlloc's library-origin allocation counter are sampled at call and at return (or at the first destructor start: work done by user destructors is not charged); both deltas must be zero. Non-trivial = at least one such window was measured; distinct = distinct operation sequences",
+        "require": {"stats.c14_obs": 100000},
+    }
+
+
+def plan_C15(q, seed):
+    if q:
+        sizes = [("ring", 1000), ("ring", 10000), ("ring", 100000), ("chords", 1000), ("chords", 100000),
+                 ("selfmix", 1000), ("selfmix", 100000), ("clique", 100), ("clique", 300)]
+        stacks = [128]
+    else:
+        sizes = [(s, n) for s in ("ring", "chords", "selfmix") for n in (1000, 3000, 10000, 30000, 100000, 300000)]
+        sizes += [("clique", n) for n in (50, 100, 200, 400, 600)]
+        stacks = [64, 128]
+    return {
+        "jobs": [{"kind": "scale", "engine": "e1", "sizes": sizes, "stacks": stacks, "label": "scale-e1", "args": [], "lo": 0, "hi": 0, "seeds": [seed, seed + 1] if not q else [seed]},
+                 {"kind": "scale", "engine": "e3", "sizes": [("ring", 24), ("chords", 24), ("selfmix", 30), ("clique", 8)], "stacks": [128], "label": "scale-e3", "args": [], "lo": 0, "hi": 0, "seeds": [seed]}],
+        "rule": "one orphanable group of N objects (ring, ring + N/2 random chords, clique, ring with self-adoptions through a clone and through the same handle) is built by moving handles so that exactly one drop triggers exactly one trace, then collected on a thread with a 64/128 KiB stack in a child process; the child must complete, trace counters (H3) must satisfy expansions <= N, pops <= distinct adoption pairs + 1, entries scanned <= 2*pairs + same-handle records, all N members destroyed, destructor nesting depth must stay 1. 'Any size' is restated as this bounded scaling experiment; wall time is recorded as evidence only. Distinct = distinct (shape, N, stack, seed)",
+        "assumptions": ["bounded restatement of an unbounded claim: N up to 3*10^5 (clique: 600)", "hooks H3 count what the trace does; payload destructor measures nesting"],
+    }
+
+
+def plan_C16(q, seed):
+    jobs = [
+        gen_job("deadclone", "DEAD", 16000 if q else 300000, time_limit=30 if q else 400),
+        gen_job("deaddrop", "DEAD", 16000 if q else 300000, time_limit=30 if q else 400),
+        e2(gen_job("deadclone", "DEAD", 2000 if q else 40000, time_limit=20 if q else 200)),
+        e2(gen_job("deaddrop", "DEAD", 2000 if q else 40000, time_limit=20 if q else 200)),
+        {"kind": "miri-child", "engine": "e3", "count": 12 if q else 200, "label": "deadclone-e3", "args": [], "lo": 0, "hi": 0},
+    ]
+    return {
+        "jobs": jobs,
+        "rule": "one child process per scenario: a collectable shape (fully recorded 2-3 object shapes, rings/cliques/... up to 6) in which the destructor of a chosen member clones (resp. only drops) one of its stored handles whose target is already destroyed (a peer of the group being collected, or itself); the parent observes the exit status: after the BEFORE-CLONE marker the child must die by SIGILL/SIGABRT without printing AFTER-CLONE; the drop-only variant must complete normally with all monitors silent. Under Miri the abort is reported as 'the program aborted execution'. Non-trivial = the dead handle was actually touched; distinct = distinct operation sequences",
+        "assumptions": E1_ASSUME + ["process exit status and stdout markers are the observation"],
+        "require": {"stats.dead_clones_attempted": 500, "stats.dead_drops": 500},
     }
